@@ -33,7 +33,8 @@ def run_translators():
         out.append(("Gen.Terminal", r.returncode == 0, r.stdout[-2000:]))
     for name, script, target in (("Gen.Levels", "levels_to_lean.py", "Levels.lean"),
                                  ("Gen.HashStream", "hashstream_to_lean.py", "HashStream.lean"),
-                                 ("Gen.CounterArray", "counterarray_to_lean.py", "CounterArray.lean")):
+                                 ("Gen.CounterArray", "counterarray_to_lean.py", "CounterArray.lean"),
+                                 ("Gen.NodeHeaders", "nodeheaders_to_lean.py", "NodeHeaders.lean")):
         t = os.path.join(VERIF, "translate", script)
         if os.path.exists(t):
             r = sh([sys.executable, t, "--out", os.path.join(LEAN, "MeddlyModel", "Gen", target), "--repo", B.REPO])
